@@ -250,7 +250,21 @@ impl Explorer {
                 let _ = simos::take_log();
                 simos::set_logging(true);
             }
+            // every other recovery first sees a write transaction that is abandoned: whatever
+            // the first writer after a recovery has to do must not be lost with it
+            let abandon_first = self.images % 2 == 1;
+            if abandon_first {
+                self.count("followup_preceded_by_abandoned_tx");
+            }
             let r = catch(|| -> Result<(), String> {
+                if abandon_first {
+                    let tx = db.tx(true).map_err(|e| format!("tx(true): {}", e))?;
+                    {
+                        let b = tx.get_or_create_bucket("zz-abandoned").map_err(|e| format!("get_or_create_bucket: {}", e))?;
+                        b.put("never-committed", val.clone()).map_err(|e| format!("put: {}", e))?;
+                    }
+                    drop(tx);
+                }
                 let tx = db.tx(true).map_err(|e| format!("tx(true): {}", e))?;
                 {
                     let b = tx.get_or_create_bucket("zz-recovery").map_err(|e| format!("get_or_create_bucket: {}", e))?;
